@@ -8,6 +8,7 @@ def sh(cmd, cwd=None, timeout=7200):
     return p.returncode, p.stdout + p.stderr
 def main():
     nid, patch, checks = sys.argv[1:4]
+    patch = os.path.abspath(patch)
     repo, out = "/tmp/seedwt/" + nid, "/tmp/seedout/" + nid
     sh("rm -rf %s %s; git worktree prune" % (repo, out), cwd="/repo")
     os.makedirs(out, exist_ok=True)
@@ -40,8 +41,10 @@ def main():
         sh("rm -rf %s" % out)
     d = "/verif/seeded/neutral/" + nid
     os.makedirs(d, exist_ok=True)
-    shutil.copy(patch, d + "/patch.diff")
-    json.dump(meta, open(d + "/meta.json", "w"), indent=1)
+    if os.path.abspath(patch) != os.path.abspath(d + "/patch.diff"):
+        shutil.copy(patch, d + "/patch.diff")
+    # NEUTRAL_OUT: keep the earlier full evaluation and store this (partial) one next to it
+    json.dump(meta, open(d + "/" + os.environ.get("NEUTRAL_OUT", "meta.json"), "w"), indent=1)
     print(nid, "tests_pass=%s" % meta.get("existing_tests_pass_with_change"), "alarms=%s" % meta.get("alarms"), meta.get("error", ""))
 if __name__ == "__main__":
     main()
